@@ -1,6 +1,7 @@
 use crate::report::Report;
 use crate::Args;
 
+pub mod c01;
 pub mod c03;
 pub mod c04;
 pub mod c05;
@@ -10,6 +11,7 @@ pub mod c12;
 pub mod c15;
 pub mod c16;
 pub mod c19;
+pub mod net;
 pub mod smoke;
 pub mod srv;
 
@@ -21,6 +23,7 @@ pub fn run(a: &Args) -> Report {
         "c04" => c04::run(a),
         "c05" => c05::run(a),
         "c03" => c03::run(a),
+        "c01" => c01::run(a),
         "c11" => c11::run(a),
         "c12" => c12::run(a),
         "c16" => c16::run(a),
